@@ -1075,6 +1075,12 @@ def instantiate(self, cls, args, kwargs):
         items = self.iterate(a, concat=True)       # a set of a concatenation is the union: segments may stay
         if any(is_symbolic(x) or isinstance(x, Seg) for x in items):
             return YSet([(True, x) for x in items])
+        if cls is set and getattr(self, "mutable_sets", False):
+            out = YSet([])                      # a set that may be mutated later: kept as an interpreter object
+            for x in items:
+                if self.yset_member(x, out) is not True:
+                    out.items.append((True, x))
+            return out
         return cls(items)
     if cls is str:
         return self.to_str(args[0]) if args else ""
